@@ -21,18 +21,18 @@ type RefRow struct {
 type ItemGen func(c *Chooser, b *Builder, op string, n int) (items []interface{}, texts []string, desc string)
 
 type BuildCfg struct {
-	Counts          []int // cell counts offered for AddHeaders / AddRowItems
-	HeaderCounts    []int // if nil, Counts
-	MaxDetached     int
-	AllowSepAdd     bool
-	AllowMutateCopy bool
+	Counts           []int // cell counts offered for AddHeaders / AddRowItems
+	HeaderCounts     []int // if nil, Counts
+	MaxDetached      int
+	AllowSepAdd      bool
+	AllowMutateCopy  bool
 	AllowNewRowSized bool
-	NoAppendNewRow  bool
-	NoDetached      bool
-	NoSeparator     bool
-	NoRowAdd        bool
-	Items           ItemGen
-	New             func() tabular.Table
+	NoAppendNewRow   bool
+	NoDetached       bool
+	NoSeparator      bool
+	NoRowAdd         bool
+	Items            ItemGen
+	New              func() tabular.Table
 }
 
 type Builder struct {
@@ -47,6 +47,8 @@ type Builder struct {
 	Steps     int
 	// shape predicates (tags for findings)
 	HeaderReplaced bool
+	CurDetached    *RefRow  // set while Row.Add runs on a detached row
+	SepAdds        int      // number of cells "added" to separator rows (each is a misuse error)
 	ItemTags       []string // tags contributed by the item generator (set semantics)
 	Fills          []string // per op, which pool item was used (part of the state key)
 }
@@ -192,7 +194,9 @@ func (b *Builder) ops() []buildOp {
 				r := b.Detached[i]
 				items, texts, d := gen(c, b, "Row.Add", 1)
 				c.Logf("d%d.Add(NewCell(%s))", i, d)
+				b.CurDetached = r
 				r.Ptr.Add(tabular.NewCell(items[0]))
+				b.CurDetached = nil
 				r.Cells = append(r.Cells, texts[0])
 			}})
 		}
@@ -206,6 +210,7 @@ func (b *Builder) ops() []buildOp {
 						items, _, d := gen(c, b, "Row.Add", 1)
 						c.Logf("t.AllRows()[%d].Add(NewCell(%s))  // separator row", i, d)
 						b.T.AllRows()[i].Add(tabular.NewCell(items[0]))
+						b.SepAdds++
 					}})
 				}
 				continue
